@@ -155,8 +155,10 @@ class ReconnectAdapter:
                 "rep": rep}
 
     def fingerprint(self):
-        """hidden state for the walk only (never compared): time left on the reconnect timer"""
-        return max(0.0, self.conn.timer.stop - self.clock.stamp) if self.conn.timeout > 0.0 else 0.0
+        """hidden state for the walk only (never compared): time left on the reconnect timer, negative when the timer
+        expired that long ago (a pause in servicing), cut at a few timeouts so that the walk stays finite"""
+        t = self.conn.timeout
+        return max(self.conn.timer.stop - self.clock.stamp, -4.0 * t) if t > 0.0 else 0.0
 
     def step(self, name, key, cands):
         args = key[1]
@@ -208,12 +210,13 @@ def run_c27(ctx):
                "period cannot be met by any timeout driven client)")
     p = ctx.pick(1, 2)
     configs = []
+    # MaxAdv of several timeouts: pauses in servicing much longer than the reconnect timeout while disconnected
     for rec in (True, False):
         for to in ((1, 2) if rec else (0, 2)):
-            configs.append({"Reconnectable": rec, "Timeout": to, "MaxAdv": 2, "P": p, "K": p + 1})
+            configs.append({"Reconnectable": rec, "Timeout": to, "MaxAdv": (3 * to if rec else 2), "P": p, "K": p + 1})
     if not ctx.quick:
         configs.append({"Reconnectable": True, "Timeout": 0, "MaxAdv": 2, "P": p, "K": p + 1})
-        configs.append({"Reconnectable": True, "Timeout": 3, "MaxAdv": 3, "P": p, "K": p + 1})
+        configs.append({"Reconnectable": True, "Timeout": 3, "MaxAdv": 7, "P": p, "K": p + 1})
     d = env.subdir("c27")
     jobs = []
     for i, k in enumerate(configs):
